@@ -329,7 +329,30 @@ fn fam_systematic(ctx: &CaseCtx, cov: &mut Cov) -> CaseOut {
     let mut rng = ctx.rng();
     let mut p = L2Params::standard(3, 40);
     p.w = [1, 2, 2, 2, 6, 3];
-    let chunks = gen_chunks(&mut rng, &p);
+    let mut chunks = gen_chunks(&mut rng, &p);
+    // every third base starts with a compressed chunk larger than 64 KiB, so that the size
+    // bits of its control byte are non-zero: a control byte with bit 7 cleared but the same
+    // low five bits (e.g. 0x7F for 0xFF) then still describes consistent sizes
+    if ctx.index % 3 == 0 {
+        let h = if ctx.index % 6 == 0 { 31 } else { rng.range(1, 31) as usize };
+        let target = (h << 16) + rng.range(1, 65536) as usize;
+        let mut prog: Vec<Sym> = (0..32).map(|_| Sym::Lit(rng.byte())).collect();
+        let mut produced = 32usize;
+        while produced < target {
+            let len = (target - produced).min(273);
+            if len < 2 {
+                prog.push(Sym::Lit(rng.byte()));
+                produced += 1;
+            } else {
+                prog.push(Sym::Match { dist: rng.range(1, produced.min(60000) as u64) as u32, len: len as u32 });
+                produced += len;
+            }
+        }
+        let props = crate::gen::l2gen::random_props_l2(&mut rng);
+        let reset = *rng.pick(&[3u8, 3, 3]);
+        chunks = vec![Chunk::Lzma { reset, props, prog }, Chunk::Lzma { reset: *rng.pick(&[0u8, 1, 2]), props, prog: vec![Sym::Lit(rng.byte()), Sym::Rep { idx: 0, len: 7 }] }];
+        cov.name("systematic_base_with_large_chunk", 1);
+    }
     let w = match lzma2::write(&chunks) {
         Ok(w) => w,
         Err(_) => return out,
@@ -475,7 +498,7 @@ pub fn monitor(tier: Tier) -> Monitor {
             "not judged (counted as lenient.*): a declared uncompressed size lowered onto a symbol boundary, and declared compressed sizes larger than needed - lzma-rs does not check that a chunk's bytes are all used; the statement lists 'needs more input than declared' only".into(),
         ],
         families: vec![
-            Family { name: "systematic_bytes", count: tier.pick(12, 200), priority: true, enumerated: false, run: fam_systematic },
+            Family { name: "systematic_bytes", count: tier.pick(18, 240), priority: true, enumerated: false, run: fam_systematic },
             Family { name: "raw_only_sizes", count: tier.pick(1500, 40_000), priority: false, enumerated: false, run: fam_raw_only },
             Family { name: "marker_in_chunk", count: tier.pick(2_000, 20_000), priority: true, enumerated: false, run: fam_marker },
             Family { name: "base_streams", count: tier.pick(6_000, 120_000), priority: false, enumerated: false, run: fam_base },
